@@ -318,6 +318,9 @@ type c09Ev struct {
 
 func runC09(ctx *Ctx) {
 	n := ctx.N(150, 4000)
+	if ctx.Want(n + 50) {
+		defer c09Binary(ctx, n+50)
+	}
 	forEachCase(ctx, n, func(i int, rng *rand.Rand) {
 		drv := i % 2
 		w := newWorld(worldCfg{Drv: drv, Price: "1000", IntervalNs: 60e9, Settle: true})
